@@ -329,7 +329,7 @@ def shard(ctx):
     install(ctx.R)
     tabs = tables(ctx.R)
     edges = ['HD', 'NK', 'SB', 'OA', '--', 'MO']
-    for i in ctx.indices(ctx.pick(3000, 80000)):
+    for i in ctx.indices(ctx.pick(3000, 600000)):
         rng = ctx.rng('negra', i)
         mix = rng.choice([['HD', 'NK', 'SB', '--'], ['NK', 'SB', 'MO', '--'],
                           ['SB', 'OA', '--'], ['HD', 'HD', 'NK', 'NK', 'SB'],
@@ -343,7 +343,7 @@ def shard(ctx):
         run_negra(ctx, spec, rng, stale=r < 0.3,
                   twice=rng.choice(['negra', 'ptb']) if 0.3 <= r < 0.45
                   else None)
-    for i in ctx.indices(ctx.pick(6000, 150000)):
+    for i in ctx.indices(ctx.pick(6000, 1200000)):
         rng = ctx.rng('rules', i)
         preset = rng.choice(['negra', 'ptb'])
         spec = make_rule_case(rng, tabs, preset)
